@@ -864,12 +864,98 @@ func C12RegConfigTOML(r C12Registrar) string {
 // C12Proc is a RegProcessor built from a C12Registrar together with what the oracle needs.
 type C12Proc struct {
 	closeFn func()
-	RP      *RegProcessor
-	Sender  *C12Sender
-	Pub     ed25519.PublicKey
-	ovr     []c12Net
-	excl    []c12ExNet
-	sel     *phantoms.PhantomIPSelector
+	// ByConstructor: the processor came from the exported constructor. ConstructorUnavailable: the
+	// case asked for it but the process was short of descriptors, a struct literal was used.
+	ByConstructor          bool
+	ConstructorUnavailable bool
+	RP                     *RegProcessor
+	Sender                 *C12Sender
+	Pub                    ed25519.PublicKey
+	ovr                    []c12Net
+	excl                   []c12ExNet
+	sel                    *phantoms.PhantomIPSelector
+}
+
+// --- descriptor budget of the constructor-built processors -------------------------------------------
+//
+// Every processor made by an exported constructor owns a real ZMQ socket (signalling descriptors, a
+// TCP listener) and, when authenticated, the process-wide ZAP handler. libzmq closes sockets
+// asynchronously (reaper thread) and a context holds at most 1023 sockets, so the harness (a) waits
+// after an authenticated case until the ZAP endpoint is really free instead of retrying a constructor
+// that leaks its socket when AuthStart fails, (b) watches the number of open descriptors and lets the
+// reaper catch up, and (c) falls back to a struct-literal processor — counted, never a verdict —
+// when descriptors stay short.
+
+var (
+	c12CtorBuilt   int
+	c12CtorSkipFor int
+)
+
+// C12OpenFDs counts the open descriptors of the process (evidence: must stay bounded).
+func C12OpenFDs() int {
+	ents, err := os.ReadDir("/proc/self/fd")
+	if err != nil {
+		return -1
+	}
+	return len(ents)
+}
+
+// c12CtorBudgetOK says whether this case may use an exported constructor.
+func c12CtorBudgetOK() bool {
+	if c12CtorSkipFor > 0 {
+		c12CtorSkipFor--
+		return false
+	}
+	c12CtorBuilt++
+	if c12CtorBuilt%32 != 0 {
+		return true
+	}
+	for i := 0; i < 200 && C12OpenFDs() > 300; i++ {
+		time.Sleep(time.Millisecond) // let the reaper close what earlier cases released
+	}
+	if C12OpenFDs() > 600 {
+		c12CtorPenalty()
+		return false
+	}
+	return true
+}
+
+func c12CtorPenalty() { c12CtorSkipFor = 500 }
+
+func c12ResourceErr(err error) bool {
+	if err == nil {
+		return false
+	}
+	s := err.Error()
+	for _, k := range []string{"too many open files", "non-socket", "address already in use", "failed to create zmq socket", "Cannot allocate", "resource temporarily unavailable"} {
+		if strings.Contains(s, k) {
+			return true
+		}
+	}
+	return false
+}
+
+// c12WaitZapFree returns when the inproc endpoint of the ZAP handler can be bound again (zmq.AuthStop
+// returns before the handler's socket is gone). The probe unbinds before it is closed, so it does not
+// hold the endpoint itself. Bounded; on time-out the next constructor call reports the problem.
+func c12WaitZapFree() {
+	const ep = "inproc://zeromq.zap.01"
+	for i := 0; i < 4000; i++ {
+		probe, err := zmq.NewSocket(zmq.REP)
+		if err != nil {
+			return
+		}
+		_ = probe.SetLinger(0)
+		err = probe.Bind(ep)
+		if err == nil {
+			_ = probe.Unbind(ep)
+		}
+		_ = probe.Close()
+		if err == nil {
+			return
+		}
+		time.Sleep(50 * time.Microsecond)
+	}
 }
 
 // Close releases what an exported constructor allocated (real ZMQ socket, auth handler).
@@ -944,50 +1030,67 @@ func C12NewProc(e *C12Env, r C12Registrar, sel *phantoms.PhantomIPSelector) (*C1
 	if len(ovr) > 0 {
 		regOverrides = interfaces.Overrides(ovr)
 	}
-	if r.Build == "constructor" {
+	if r.Build == "constructor" && c12CtorBudgetOK() {
 		// PHANTOM_SUBNET_LOCATION points at the environment's default file (set by C12NewEnv); the
 		// case's selector replaces the one the constructor loads from it.
 		var rp *RegProcessor
 		var err error
 		if r.Auth {
-			// zmq.AuthStop returns before libzmq has released the ZAP handler's inproc endpoint
-			// of the previous case (socket close is asynchronous), so AuthStart can transiently
-			// report "address already in use": wait for the endpoint, bounded (harness only).
-			for attempt := 0; attempt < 2000; attempt++ {
+			// the ZAP endpoint of the previous authenticated case has been released (c12WaitZapFree in
+			// the previous Close), so this normally succeeds at once; a constructor that fails in
+			// AuthStart leaves its socket open, hence at most a few attempts
+			for attempt := 0; attempt < 3; attempt++ {
 				rp, err = NewRegProcessor("127.0.0.1", 0, priv, false, nil, e.Metrics, conf.EnforceSubnetOverrides, conf.OverrideSubnets, conf.ExclusionsFromOverride, conf.PrcntMinRegsToOverride, conf.PrcntPrefixRegsToOverride)
 				if err == nil || !strings.Contains(err.Error(), "address already in use") {
 					break
 				}
-				time.Sleep(100 * time.Microsecond)
+				c12WaitZapFree()
 			}
 		} else {
 			rp, err = NewRegProcessorNoAuth("127.0.0.1", 0, e.Metrics, conf.EnforceSubnetOverrides, conf.OverrideSubnets, conf.ExclusionsFromOverride, conf.PrcntMinRegsToOverride, conf.PrcntPrefixRegsToOverride)
 		}
-		if err != nil || rp == nil {
+		switch {
+		case err == nil && rp != nil:
+			real := rp.sock
+			auth := r.Auth
+			pr.closeFn = func() {
+				if auth {
+					zmq.AuthStop()
+				}
+				_ = real.Close()
+				if auth {
+					c12WaitZapFree()
+				}
+			}
+			rp.sock = pr.Sender
+			rp.ipSelector = sel
+			rp.regOverrides = regOverrides
+			for tt, t := range c12Transports(prefix.DefaultSet()) {
+				if err := rp.AddTransport(tt, t); err != nil {
+					pr.Close()
+					return nil, err
+				}
+			}
+			pr.RP = rp
+			pr.ByConstructor = true
+			return pr, nil
+		case c12ResourceErr(err):
+			// the process ran out of sockets / descriptors (or the endpoint never came free): a
+			// limit of the harness, not of the code under test. Run this case on a struct-literal
+			// processor instead and stop using the constructor for a while.
+			if r.Auth {
+				zmq.AuthStop()
+			}
+			c12CtorPenalty()
+			pr.ConstructorUnavailable = true
+		default:
 			if r.Auth {
 				zmq.AuthStop()
 			}
 			return nil, fmt.Errorf("exported constructor (auth=%v) failed: %v", r.Auth, err)
 		}
-		real := rp.sock
-		auth := r.Auth
-		pr.closeFn = func() {
-			if auth {
-				zmq.AuthStop()
-			}
-			_ = real.Close()
-		}
-		rp.sock = pr.Sender
-		rp.ipSelector = sel
-		rp.regOverrides = regOverrides
-		for tt, t := range c12Transports(prefix.DefaultSet()) {
-			if err := rp.AddTransport(tt, t); err != nil {
-				pr.Close()
-				return nil, err
-			}
-		}
-		pr.RP = rp
-		return pr, nil
+	} else if r.Build == "constructor" {
+		pr.ConstructorUnavailable = true
 	}
 	// --- from here on: the body of newRegProcessor / NewRegProcessorNoAuth -----------------------
 	pMin, pPre := validateOverridePercentages(conf.PrcntMinRegsToOverride, conf.PrcntPrefixRegsToOverride)
@@ -1313,8 +1416,11 @@ func C12Run(e *C12Env, c C12Case, entry C12Entry) (res C12Result) {
 		return
 	}
 	defer pr.Close()
-	if c.Reg.Build == "constructor" {
+	if pr.ByConstructor {
 		res.class(fmt.Sprintf("built-by-exported-constructor:auth=%v", c.Reg.Auth))
+	}
+	if pr.ConstructorUnavailable {
+		res.class("exported-constructor-skipped-descriptor-budget")
 	}
 	clientBytes, err := C12ClientBytes(q)
 	if err != nil {
@@ -1777,8 +1883,11 @@ func C12RunUsage(e *C12Env, u C12UsageCase) (res C12Result, rows []C12UsageRow) 
 		return
 	}
 	defer pr.Close()
-	if u.Reg.Build == "constructor" {
+	if pr.ByConstructor {
 		res.class(fmt.Sprintf("built-by-exported-constructor:auth=%v", u.Reg.Auth))
+	}
+	if pr.ConstructorUnavailable {
+		res.class("exported-constructor-skipped-descriptor-budget")
 	}
 	for _, s := range u.Reg.Subnets {
 		rows = append(rows, C12UsageRow{Subnet: s})
@@ -2051,8 +2160,11 @@ func C12RunConc(e *C12Env, c C12ConcCase) (res C12Result) {
 		return
 	}
 	defer pr.Close()
-	if c.Reg.Build == "constructor" {
+	if pr.ByConstructor {
 		res.class(fmt.Sprintf("built-by-exported-constructor:auth=%v", c.Reg.Auth))
+	}
+	if pr.ConstructorUnavailable {
+		res.class("exported-constructor-skipped-descriptor-budget")
 	}
 	refReg := c.Reg
 	refReg.Build = "" // one ZMQ auth handler at a time; the reference is compared on non-random fields only
